@@ -19,6 +19,33 @@ CLAIMED = {
         "DESIGN.md section 5, C17",
     ),
 }
+WALKER_NOTE = ("Python semantics as modelled by the syntax-directed walker (sa/flow.py); xdsl API names (rewriter.*, "
+               "is_side_effect_free, InsertPoint, replace_all_uses_with) taken by name after import resolution; helper "
+               "predicates summarised one to two levels deep; necessary conditions only.")
+CLAIMED["C01"] = (
+    "Static guard-dominance / effect-discipline / dependency rules on the five accfg-dedup patterns: a field is dropped "
+    "only under equality with the state inferred from the op's own in_state; setups merge only across side-effect-free "
+    "ops up to a same-accelerator setup, later values winning, earlier in_state kept; empty setups are elided only with "
+    "an in_state; loop hoisting excludes every field defined in the loop or written with two values anywhere in the "
+    "loop body; sinking into scf.if requires that no launch of the if's state lies between; accfg ops have no purity "
+    "traits; plus the C07 soundness rules of the consumed state inference. Holds for every execution of the pass code; "
+    "does not decide run-time register contents or confluence of the greedy driver.",
+    WALKER_NOTE,
+    "custom AST dataflow: must-facts / guard dominance, def-use cones, trait tables (static analysis)",
+    "DESIGN.md section 5, C01",
+)
+CLAIMED["C07"] = (
+    "Information-flow necessity on the accelerator-state dataflow: the loop-head state depends on the loop body and is "
+    "guarded by `not has_accfg_effects(loop)`; the loop-result state is the meet of yielded and initial state; the if "
+    "case intersects all regions with an equality filter; setup chaining is in_state-updated-by-own; has_accfg_effects "
+    "flags func/llvm calls, honours the effects attribute with the right polarity and recurses over all nested ops; "
+    "every branch of the weaving chain that an effecting op can take shrinks the tracked state on every path; setups are "
+    "re-linked to state[their accelerator]. A transfer function that does not read what its soundness depends on cannot "
+    "be sound: these are necessary conditions decided for all inputs, not the run-time state itself.",
+    WALKER_NOTE,
+    "custom AST dataflow: dependency cones (information-flow necessity), path/branch coverage of state-shrinking constructs (static analysis)",
+    "DESIGN.md section 5, C07",
+)
 NOT_APPLICABLE = {
     "C02": "address-stream equality is integer arithmetic over runtime strides/bounds; no structural necessary condition carries weight (DESIGN.md section 5, C02)",
 }
